@@ -28,7 +28,7 @@ def run(ctx):
     ctx.model('Krylov', 'm_protocol', constants=dict(NMAX=ctx.pick(5, 7), MMAX=ctx.pick(7, 9)),
               invariants=['SizesOK', 'WarnOK', 'RoutingOK', 'ExhaustedSpans'], properties=['Terminates'], coverage=True)
     traces, cases = [], []
-    for _ in range(ctx.pick(700, 15000)):
+    for _ in range(ctx.pick(700, 120000)):
         herm = bool(rng.integers(2))
         A, v, fam, vk = krylovgen.gen_problem(rng, herm)
         n = len(v)
@@ -42,7 +42,7 @@ def run(ctx):
     ctx.notes['ambiguous'] = sum(1 for t in traces if t[0].get('ambiguous'))
     for t in traces[::max(1, len(traces) // 6)]:
         ctx.sample(t[0])
-    bad = validate_chunks(ctx, 'TraceKrylov', 'tk', traces, chunk=ctx.pick(400, 3000))
+    bad = validate_chunks(ctx, 'TraceKrylov', 'tk', traces, chunk=ctx.pick(400, 8000))
     for idx, why in sorted(bad.items())[:40]:
         clause = why[0][2] if why and len(why[0]) > 2 else 'rejected'
         c = cases[idx]
